@@ -295,10 +295,17 @@ func (p iterPlan) sourceModel() iterModel {
 		s := p.Streams[0]
 		m.ids, m.ordered, m.arrivalSorted = idsOf(s.Recs), true, true
 		m.batches = regroup(m.ids, 1+p.SinkA)
-	case srcPool, srcFiles:
+	case srcPool:
 		for _, s := range p.Streams {
 			m.ids = append(m.ids, idsOf(s.Recs)...)
 		}
+	case srcFiles:
+		for _, s := range p.Streams {
+			m.ids = append(m.ids, idsOf(s.Recs)...)
+		}
+		// one reader: the files one after the other, each in its own batch-number order,
+		// whatever the order in which the parsing workers of a file deliver its batches
+		m.ordered = p.Readers == 1
 	case srcConcat:
 		for _, s := range p.Streams {
 			m.ids = append(m.ids, idsOf(s.Recs)...)
